@@ -105,6 +105,20 @@ def rule_panics(ctx, res, scope_rx=None):
             if re.search(brx, st['body']) and re.search(drx, st['desc']):
                 hit = k
                 break
+        if hit is None and st['body'] == 'storage::AnnounceStorage::remove_expired_items' and st['desc'].startswith('<T, A>::drain(self.expires, Range'):
+            # `expires.drain(..n)`: in range because n counts a prefix of that very vector - which is what the C07 expiry rule
+            # establishes (for the take_while/count chain as well as for a counting loop); accepted iff that rule holds
+            from . import c07
+            tmp = lib.Results('C07')
+            try:
+                c07.rule_expiry(ctx, tmp)
+                holds = not [v for v in tmp.violations() if 'expiry drains exactly' in (v.get('what') or '')]
+            except (Lost, AttributeError, TypeError, KeyError, IndexError):
+                holds = False
+            if holds:
+                n_rev += 1
+                res.ok('PANIC', st['body'], 'reviewed: %s -- n is the length of an expired prefix of the same vector (premise: C07 expiry rule, re-evaluated here)' % st['desc'][:90], site=st['sp'])
+                continue
         if hit is None:
             res.bad('PANIC', st['body'], 'panic-capable site without a reviewed reason: %s' % st['desc'], site=st['sp'],
                     detail='add a reason to the reviewed table only if the site provably cannot fire for any datagram / configuration', key='unreviewed:' + st['desc'])
@@ -362,7 +376,16 @@ def rule_validate_first(ctx, res):
             if truth is True and p.end == 'return' and agg_variant(p.ret) != 'Err':
                 # depth > MAX_DEPTH but not rejected (only if this is the last thing on the path)
                 pass
-    deep = [p for p in vs.paths if any(literal(c)[0] == 'lt' and term_int(literal(c)[1]) == maxd and literal(c)[3] is True for c in p.conds)]
+    # `depth > MAX_DEPTH` after the increment, or `depth >= MAX_DEPTH` before it: both reject the 33rd level
+    def too_deep(l):
+        if l[0] != 'lt' or l[3] is None:
+            return False
+        if term_int(l[1]) == maxd and term_int(l[2]) is None and l[3] is True:       # MAX < depth'
+            return True
+        if isinstance(l[2], tuple) and term_int(l[2]) == maxd and term_int(l[1]) is None and l[3] is False:   # !(depth < MAX)
+            return True
+        return False
+    deep = [p for p in vs.paths if any(too_deep(literal(c)) for c in p.conds)]
     okd = bool(deep) and all(p.end == 'return' and agg_variant(p.ret) == 'Err' for p in deep)
     res.check(okl and nl >= 1, 'DOM', v.path, 'the position advances by a declared string length only after `len > bytes.len() - pos` was false (no string longer than the remaining input reaches the library)', detail='%d advance sites on paths' % nl)
     res.check(okd and maxd == 32, 'DOM', v.path, 'nesting deeper than MAX_DEPTH (= 32) returns Err', detail='%d paths, MAX_DEPTH %s' % (len(deep), maxd))
